@@ -292,7 +292,9 @@ def cmdAppend (db : Db) (args : List Bytes) : Db × Frame :=
   match args with
   | [k, v] => match lookup db k with
     | none => (insert db k (mkStr v), nat v.length)
-    | some ⟨.str b, d⟩ => (insert db k { val := .str (b ++ v), deadline := d }, nat (b ++ v).length)
+    | some ⟨.str b, d⟩ =>
+      if b.length + v.length > 536870912 then (db, err) else       -- the 512 MB limit SETRANGE has (601a657)
+      (insert db k { val := .str (b ++ v), deadline := d }, nat (b ++ v).length)
     | some _ => (db, wrongType)
   | _ => (db, err)
 
@@ -648,12 +650,8 @@ def interScan (db : Db) : List Bytes → Option (Option (List (List Bytes)))
 
 def cmdSetAlgebra (db : Db) (op : SetOp) (args : List Bytes) : Db × Frame :=
   if args.isEmpty then (db, err) else
-  if op = .inter then
-    match interScan db args with
-    | none => (db, wrongType)
-    | some none => (db, bulks [])
-    | some (some ss) => (db, bulks (sortBytes (setAlgebra .inter ss)))
-  else
+  -- every key is looked at (a missing key is an empty set, a key of another type an error wherever it stands):
+  -- SINTER too, since 5507b3c (Redis 7; `interScan` above is the scan the tree had before)
   match setsOf db args with
   | none => (db, wrongType)
   | some ss => (db, bulks (sortBytes (setAlgebra op ss)))
